@@ -52,6 +52,11 @@ def predicates(ctx, sim, label):
                 ctx.fail("C03:two-ensemble-job-not-zero-swap", f"job holds {es}", rep)
             if len(es) > 2:
                 ctx.fail("C03:job-holds-more-than-two", f"job holds {es}", rep)
+        # the record the restart file is written from lists exactly the jobs in flight
+        recs = sorted(x for x in d.get("locked", "").split(";") if x)
+        want = sorted(",".join(str(e) for (e, _pn) in h[1]) + ":" + ",".join(str(pn) for (_e, pn) in h[1]) for h in held)
+        if recs != want:
+            ctx.fail("C03:restart-record-differs-from-inflight", f"`locked` is {recs}, jobs in flight are {want}", rep)
         pins = [h[0] for h in held]
         wfs = [h[3] for h in held]
         if len(set(pins)) != len(pins) or len(set(wfs)) != len(wfs):
@@ -147,15 +152,87 @@ def _check_draws(sim, locks_before, draws, opi):
                 sim.busy_picks.append((opi, f"zero-swap partner drawn from busy rows {bad}"))
 
 
-def run_segment(ctx, n_ens, workers, steps, seed, wf, eng_types, acc_p, rng, stop_after, image, weights,
-                screen=0, probe=False, engines=False):
-    """as repex_tie._run_segment, plus: output.screen, an observation of `prob` right after load, the REAL engine
-    instances, and the matrix handed to every pick checked against the busy flags"""
-    sim = T.Sim(ctx, n_ens, workers, steps, seed=seed, wf=wf, eng_types=eng_types, rng=rng,
-                cstep=0 if image is None else image["cstep"], image=image, screen=screen)
+def activate(sim):
+    """make `sim` the one the class-level hooks of the harness talk to (several Sims may be alive at once)"""
+    os.chdir(sim.tmp)
+    T.ScriptedGen.chooser = sim._choose
+
+
+def make_sim(ctx, q, workers, rng, image, orig_cwd=None):
+    if orig_cwd is not None:
+        os.chdir(orig_cwd)
+    log = T.ScriptedGen.log
+    sim = T.Sim(ctx, q["n_ens"], workers, q["steps"], seed=q["seed"], wf=q["wf"], eng_types=q["et"], rng=rng,
+                cstep=0 if image is None else image["cstep"], image=image, screen=q["screen"])
+    if orig_cwd is not None and log is not None:
+        # a second Sim alive at the same time: keep ONE draw log (the dumps count the main-stream draws in it)
+        T.ScriptedGen.log = log
     sim.image = None
-    sim.busy_picks, sim.eng_faults = [], []
+    sim.busy_picks, sim.eng_faults, sim.alias_faults = [], [], []
+    if q["engmap"] == "own0" and q["n_ens"] >= 3:
+        # heterogeneous engines: [0-] runs on an engine of its own (exactly ONE instance, whatever the workers),
+        # the other ensembles share a second engine name
+        sim.eng_names = ["engine0", "engine1"]
+        ens_engs = [["engine0"]] + [["engine1"] for _ in range(q["n_ens"] - 1)]
+        sim.cfg["simulation"]["ensemble_engines"][:] = ens_engs
+        sim.st.engine_occ = {"engine0": [-1] * min(1, workers), "engine1": [-1] * min(q["n_ens"] - 1, workers)}
+        sim.lines[1] = "occ " + T.lst([len(sim.st.engine_occ[k]) for k in sim.eng_names])
+        sim.lines[2] = f"enseng {q['n_ens']} " + " ".join(T.lst([sim.eng_names.index(e) for e in ee]) for ee in ens_engs)
+    return sim
+
+
+def _job_view(md):
+    return (md.get("pin"), list(md.get("ens_nums", [])), [(e, dd.get("pn_old"), dict(dd.get("eng_idx", {})), dd.get("exe_dir"), dd.get("pin"))
+                                                           for e, dd in md["picked"].items()],
+            md.get("w_folder"), list(md.get("pnum_old", [])))
+
+
+def _state_view(sim):
+    st = sim.st
+    return ("".join("1" if l else "0" for l in st._locks), [t if t == "" else t.path_number for t in st._trajs],
+            [(list(t[0]), list(t[1])) + tuple(t[2:]) for t in st.locked], [(list(t[0]), list(t[1])) + tuple(t[2:]) for t in st.locked0],
+            {k: list(v) for k, v in st.engine_occ.items()}, st.state.tolist())
+
+
+def alias_probe(sim, md, inflight):
+    """what a worker may do to ITS md_items must not show in the sampler's bookkeeping nor in another job's md_items"""
+    others = [o for o in inflight if o is not md]
+    for o in others:
+        if o is md or o["picked"] is md["picked"]:
+            sim.alias_faults.append(f"jobs of pins {o.get('pin')} and {md.get('pin')} were handed the same `picked` dict")
+        for e, dd in md["picked"].items():
+            for e2, dd2 in o["picked"].items():
+                for key in ("ens", "eng_idx"):
+                    if key in dd and key in dd2 and dd[key] is dd2[key]:
+                        sim.alias_faults.append(f"pins {o.get('pin')} and {md.get('pin')}: picked[{e2}]['{key}'] and picked[{e}]['{key}'] are one object")
+                if dd is dd2:
+                    sim.alias_faults.append(f"pins {o.get('pin')} and {md.get('pin')} share one picked entry")
+    before = (_state_view(sim), [_job_view(o) for o in others])
+    undo = []
+    for key in ("ens_nums", "pnum_old"):
+        if isinstance(md.get(key), list):
+            md[key].append(-77)
+            undo.append(lambda k=key: md[k].pop())
+    for e, dd in md["picked"].items():
+        if isinstance(dd.get("eng_idx"), dict):
+            dd["eng_idx"]["__probe__"] = 99
+            undo.append(lambda d=dd: d["eng_idx"].pop("__probe__"))
+        old = (dd.get("pn_old"), dd.get("exe_dir"), dd.get("pin"))
+        dd["pn_old"], dd["exe_dir"], dd["pin"] = -5, "/nowhere", -5
+        undo.append(lambda d=dd, o=old: d.update(pn_old=o[0], exe_dir=o[1], pin=o[2]))
+    after = (_state_view(sim), [_job_view(o) for o in others])
+    for u in reversed(undo):
+        u()
+    if before[0] != after[0]:
+        sim.alias_faults.append(f"changing the md_items of pin {md.get('pin')} changed the sampler's own bookkeeping (locks/paths/locked/engine_occ)")
+    if before[1] != after[1]:
+        sim.alias_faults.append(f"changing the md_items of pin {md.get('pin')} changed the md_items of another job in flight")
+
+
+def drive(sim, q, rng, stop_after, image, weights):
+    """generator: one scheduler-shaped history on `sim`, yielding after every op group (so that two can be interleaved)"""
     snaps, inflight, error, tis = [], [], None, None
+    sim.snaps = snaps
 
     def snap(tag):
         d = sim.op_dump()
@@ -173,12 +250,15 @@ def run_segment(ctx, n_ens, workers, steps, seed, wf, eng_types, acc_p, rng, sto
     def prep(md):
         locks_before = [bool(x) for x in sim.st._locks]
         try:
-            return sim.op_prep(md)
+            md = sim.op_prep(md)
         finally:
             _check_draws(sim, locks_before, getattr(sim, "draws_by_op", {}).get(len(sim.lines) - 1, []), len(sim.lines) - 1)
+        if q["alias"]:
+            alias_probe(sim, md, inflight + [md])
+        return md
 
     try:
-        if engines:
+        if q["engines"]:
             tis, occ, sim.eng_faults = real_engines(sim)
             if not sim.eng_faults:
                 sim.st.engine_occ = occ
@@ -187,17 +267,29 @@ def run_segment(ctx, n_ens, workers, steps, seed, wf, eng_types, acc_p, rng, sto
         else:
             sim.load_initial([T.FakePath(pn, weights[pn]) for pn in image["active"]],
                              {int(k): [float(x) for x in v] for k, v in image["frac"].items()})
-        if probe:
+        if q["probe"]:
             sim.op_prob()       # any caller may look at the swap probabilities: this fills the `_last_prob` cache
         snap("loaded")
+        yield
         base = {"mc_moves": sim.st.mc_moves, "interfaces": sim.st.interfaces, "cap": None}
+        guard = 0
         while sim.op_initiate():
+            guard += 1
+            if guard > 4 * sim.n + 8:
+                raise RuntimeError("initiate() keeps answering True: more jobs started than workers")
             md = prep(copy.deepcopy(base))
             inflight.append(md)
             snap("prep")
+            yield
+        guard = 0
         while sim.op_loop():
+            guard += 1
+            if guard > q["steps"] + 8:
+                raise RuntimeError("loop() keeps answering True beyond the requested number of steps")
+            if not inflight:
+                raise RuntimeError("loop() answers True but no job is in flight")
             md = inflight.pop(rng.randrange(len(inflight)))
-            status = "ACC" if rng.random() < acc_p else "REJ"
+            status = "ACC" if rng.random() < q["acc"] else "REJ"
             ws = sim.random_new_weights(md, rng)
             md = sim.op_treat(md, status, ws)
             snap("treat")
@@ -209,52 +301,116 @@ def run_segment(ctx, n_ens, workers, steps, seed, wf, eng_types, acc_p, rng, sto
                 md = prep(md)
                 inflight.append(md)
                 snap("prep")
+            yield
     except Exception as e:  # noqa: BLE001
         error = e
-    sim.snaps = snaps
     sim.error = error
     sim.inflight_end = inflight
+
+
+def run_segment(ctx, q, workers, rng, stop_after, image, weights):
+    sim = make_sim(ctx, q, workers, rng, image)
+    sim.error = None
+    for _ in drive(sim, q, rng, stop_after, image, weights):
+        pass
     sim.close()
     return sim
 
 
 def norm(params):
-    """(n_ens, workers, steps, seed, wf, eng_types, acc_p[, with_model, restarts, screen, probe, engines])"""
-    p = list(params) + [True, [], 0, False, False][max(0, len(params) - 7):]
+    """(n_ens, workers, steps, seed, wf, eng_types, acc_p[, with_model, restarts, screen, probe, engines, wseq, engmap, alias])
+    wseq: workers of the restarted segments (default: unchanged)"""
+    p = list(params) + [True, [], 0, False, False, [], "", False][max(0, len(params) - 7):]
     return dict(n_ens=p[0], workers=p[1], steps=p[2], seed=p[3], wf=p[4], et=p[5], acc=p[6], with_model=bool(p[7]),
-                restarts=[int(x) for x in p[8]], screen=int(p[9]), probe=bool(p[10]), engines=bool(p[11]))
+                restarts=[int(x) for x in p[8]], screen=int(p[9]), probe=bool(p[10]), engines=bool(p[11]),
+                wseq=[int(x) for x in p[12]], engmap=str(p[13]), alias=bool(p[14]))
+
+
+def label_of(q, ctx):
+    return (f"n_ens={q['n_ens']} workers={q['workers']} steps={q['steps']} seed={q['seed']} wf={q['wf']} eng_types={q['et']} "
+            f"acc_p={q['acc']} restarts={q['restarts']} screen={q['screen']} probe={q['probe']} real_engines={q['engines']} "
+            f"wseq={q['wseq']} engmap={q['engmap']} alias={q['alias']} ctxseed={ctx.seed}")
+
+
+def judge(ctx, q, sims, label, with_model, outs, family):
+    for k, sim in enumerate(sims):
+        ctx.count(len(sim.snaps), history=f"n{q['n_ens']}w{sim.workers}", family=family)
+        two = sum(1 for (_t, _d, held) in sim.snaps for j in held if len(j[1]) == 2)
+        ctx.hit("snapshots_with_zero_swap_in_flight", two)
+        if k > 0:
+            ctx.hit("restarted_segments", 1)
+            rec = sum(1 for l in sim.lines if l.startswith("locked0 "))
+            ctx.hit("jobs_reissued_after_restart", min(rec, sim.workers))
+            if rec > sim.workers:
+                ctx.hit("restarts_with_fewer_workers_than_records", 1)
+            if rec < sim.workers - 0 and sim.workers > sims[k - 1].workers:
+                ctx.hit("restarts_with_more_workers", 1)
+        for (tag, d, held) in sim.snaps:
+            ctx.distinct((d["W"], d["trajs"], d["locks"], str([h[:4] for h in held])))
+            if d.get("_prob_stale") not in ("0", None):
+                ctx.hit("snapshots_with_stale_probability_cache", 1)
+        lab = label + (f" segment={k}" if k else "")
+        try:
+            predicates(ctx, sim, lab)
+        except Exception as e:  # noqa: BLE001  (a state the predicates cannot even read is a failing input, not a harness crash)
+            ctx.fail("C03:state-unreadable", f"{type(e).__name__}: {e}", {"history": lab, "params": getattr(sim, "params", None), "ctxseed": ctx.seed})
+        for what in getattr(sim, "alias_faults", [])[:3]:
+            ctx.fail("C03:md-items-aliased", what, {"history": lab, "params": getattr(sim, "params", None), "ctxseed": ctx.seed})
+        if with_model:
+            outs.append((sim, lab))
 
 
 def one(ctx, params, with_model, outs):
+    if params and params[0] == "two":
+        two_states(ctx, tuple(params[1]), tuple(params[2]), with_model, outs)
+        return None
     q = norm(params)
-    label = (f"n_ens={q['n_ens']} workers={q['workers']} steps={q['steps']} seed={q['seed']} wf={q['wf']} eng_types={q['et']} "
-             f"acc_p={q['acc']} restarts={q['restarts']} screen={q['screen']} probe={q['probe']} real_engines={q['engines']} ctxseed={ctx.seed}")
+    label = label_of(q, ctx)
     rng = random.Random(label)
     sims, image, weights = [], None, None
-    for stop in list(q["restarts"]) + [None]:
-        sim = run_segment(ctx, q["n_ens"], q["workers"], q["steps"], q["seed"], q["wf"], q["et"], q["acc"], rng, stop, image, weights,
-                          screen=q["screen"], probe=q["probe"], engines=q["engines"])
+    wseq = [q["workers"]] + (q["wseq"] + [q["wseq"][-1] if q["wseq"] else q["workers"]] * len(q["restarts"]))[:len(q["restarts"])]
+    for k, stop in enumerate(list(q["restarts"]) + [None]):
+        sim = run_segment(ctx, q, wseq[k], rng, stop, image, weights)
         sim.params = list(params)
         sims.append(sim)
         if stop is None or sim.error is not None or sim.image is None:
             break
         image, weights = sim.image, sim.weights_by_pn
-    kind = "engines" if q["engines"] else ("restart" if q["restarts"] else "plain")
-    for k, sim in enumerate(sims):
-        ctx.count(len(sim.snaps), history=f"n{q['n_ens']}w{q['workers']}", family=kind)
-        two = sum(1 for (_t, _d, held) in sim.snaps for j in held if len(j[1]) == 2)
-        ctx.hit("snapshots_with_zero_swap_in_flight", two)
-        if k > 0:
-            ctx.hit("restarted_segments", 1)
-            ctx.hit("jobs_reissued_after_restart", sum(1 for l in sim.lines if l.startswith("locked0 ")))
-        for (tag, d, held) in sim.snaps:
-            ctx.distinct((d["W"], d["trajs"], d["locks"], str([h[:4] for h in held])))
-            if d.get("_prob_stale") not in ("0", None):
-                ctx.hit("snapshots_with_stale_probability_cache", 1)
-        predicates(ctx, sim, label + (f" segment={k}" if k else ""))
-        if with_model:
-            outs.append((sim, label + (f" segment={k}" if k else "")))
+    family = "engines" if q["engines"] else ("restart" if q["restarts"] else ("alias" if q["alias"] else "plain"))
+    judge(ctx, q, sims, label, with_model, outs, family)
     return sims[-1]
+
+
+def two_states(ctx, pa, pb, with_model, outs):
+    """TWO REPEX_state objects alive in one process, their histories interleaved op group by op group: each must behave
+    exactly as if it were alone (its own busy set, paths, records; compared with the functional model separately)"""
+    qa, qb = norm(pa), norm(pb)
+    label = "two-states A[" + label_of(qa, ctx) + "] B[" + label_of(qb, ctx) + "]"
+    rng = random.Random(label)
+    ra, rb = random.Random(label + "A"), random.Random(label + "B")
+    orig = os.getcwd()
+    T.ScriptedGen.log = None
+    a = make_sim(ctx, qa, qa["workers"], ra, None)
+    b = make_sim(ctx, qb, qb["workers"], rb, None, orig_cwd=orig)
+    a.error = b.error = None
+    a.params, b.params = ["two", list(pa), list(pb)], ["two", list(pa), list(pb)]
+    gens = {id(a): (a, drive(a, qa, ra, None, None, None)), id(b): (b, drive(b, qb, rb, None, None, None))}
+    live = [a, b]
+    try:
+        while live:
+            sim = rng.choice(live)
+            activate(sim)
+            try:
+                next(gens[id(sim)][1])
+            except StopIteration:
+                live.remove(sim)
+    finally:
+        os.chdir(orig)
+        for sim in (a, b):
+            sim.cwd0 = orig
+            sim.close()
+    for sim, q, tag in ((a, qa, "A"), (b, qb, "B")):
+        judge(ctx, q, [sim], label + " state=" + tag, with_model, outs, "two-states")
 
 
 def run(ctx):
@@ -263,7 +419,9 @@ def run(ctx):
                 "random outcomes (pick, coin, partner, completion order, accept/reject, new weight vectors) drawn from "
                 "the check's PRNG among the admissible ones; grid over (ensembles 2..5, workers 1..ensembles-1) plus "
                 "random deep runs up to 8 ensembles; restart chains (stop with jobs in flight, re-issue, up to 2 restarts) with "
-                "and without output.screen=1 / an observation of `prob` after load; histories on the REAL engine instances "
+                "and without output.screen=1 / an observation of `prob` after load, also with more / fewer workers than at the stop; "
+                "boundary runs (steps <, =, > workers; maximal workers; [0-] on an engine of its own); md_items aliasing probes; two "
+                "samplers interleaved in one process; histories on the REAL engine instances "
                 "(def_globals → create_engines, turtlemd); distinct = distinct (W, slot order, locks, in-flight jobs) snapshots")
     plans = []
     for n_ens in (2, 3, 4, 5):
@@ -291,9 +449,43 @@ def run(ctx):
         steps = rng.randint(10, 30)
         stops = [] if i % 3 else [rng.randint(1, steps - w - 1)]
         plans.append((n_ens, w, steps, rng.randint(0, 9), False, rng.randint(1, 3), 0.7, False, stops, 0, False, True))
+    # restarts with MORE and with FEWER workers than at the stop (fewer: recorded jobs are dropped), chains
+    for i in range(8 if ctx.quick else 48):
+        n_ens = rng.randint(4, 7)
+        w = rng.randint(2, n_ens - 1)
+        steps = rng.randint(14, 30)
+        stops = sorted(rng.sample(range(1, steps - n_ens), rng.choice([1, 2])))
+        wseq = [rng.choice([1, max(1, w - 1), w + 1 if w + 1 <= n_ens - 1 else w, n_ens - 1]) for _ in stops]
+        screen, probe = observers[i % 4]
+        plans.append((n_ens, w, steps, rng.randint(0, 9), rng.random() < 0.5, rng.randint(1, 2), rng.choice([0.3, 0.7]),
+                      n_ens <= 5, stops, screen, probe, False, wseq, "", False))
+    # boundaries: steps < workers, steps == workers, stop after the very first step, [0-] on an engine of its own
+    # (one instance with >= 2 workers), maximal worker count
+    for n_ens in (3, 4, 5) if ctx.quick else (3, 4, 5, 6):
+        w = n_ens - 1
+        for steps in (1, w - 1, w, w + 1):
+            if steps >= 1:
+                plans.append((n_ens, w, steps, rng.randint(0, 9), False, 1, 0.7, True, [], 0, False, False, [], "own0", False))
+        plans.append((n_ens, w, 12, rng.randint(0, 9), False, 1, 0.7, True, [1], 1, True, False, [w], "own0", False))
+        plans.append((n_ens, w, 12, rng.randint(0, 9), False, 1, 0.7, False, [], 0, False, True, [], "own0", False))
+    # fewer workers than recorded jobs: records are dropped (never re-issued), disjointness must still hold
+    for n_ens, w in ((5, 4), (6, 4)) if ctx.quick else ((5, 4), (6, 4), (6, 5), (7, 5), (7, 6), (5, 3)):
+        plans.append((n_ens, w, 20, rng.randint(0, 9), False, 1, 0.7, n_ens <= 5, [rng.randint(2, 6), rng.randint(8, 12)], 0, False, False,
+                      [rng.choice([1, 2]), w], "", False))
+    # what a worker does to its md_items stays with that job
+    for i in range(4 if ctx.quick else 16):
+        n_ens = rng.randint(3, 6)
+        plans.append((n_ens, rng.randint(2, n_ens - 1) if n_ens > 3 else 2, rng.randint(10, 20), rng.randint(0, 9), i % 2 == 1,
+                      rng.randint(1, 2), 0.7, n_ens <= 5, [] if i % 2 else [rng.randint(1, 4)], 0, False, False, [], "", True))
     outs = []
     for p in plans:
         one(ctx, p, p[7] and ctx._driver_ok, outs)
+    # two samplers alive in one process, interleaved
+    for i in range(3 if ctx.quick else 12):
+        na, nb = rng.randint(3, 5), rng.randint(3, 5)
+        pa = (na, rng.randint(1, na - 1), rng.randint(8, 16), rng.randint(0, 9), False, 1, 0.7, True)
+        pb = (nb, rng.randint(1, nb - 1), rng.randint(8, 16), rng.randint(0, 9), i % 2 == 1, rng.randint(1, 2), 0.7, True)
+        one(ctx, ("two", pa, pb), ctx._driver_ok, outs)
     for sim, label in outs:
         model = ctx.driver(sim.lines)
         T.compare(ctx, sim, model, label)
@@ -312,6 +504,10 @@ def run(ctx):
         "the model has no probability cache (`prob` is a function of (W, locks)); coherence of the code's `_last_prob` cache is "
         "tie-only: restart chains are run with output.screen=1 and with `prob` read right after load, and the matrix handed to "
         "every pick is compared with the model's and must carry no mass on a busy row/column",
+        "REPEX_state is used as ONE long-lived object over whole histories (and two of them alive at once, interleaved); the "
+        "model is functional, so equality with the model after every op is equality with a fresh object's answer (tie-only)",
+        "aliasing of handed-out md_items (between jobs, and with the sampler's own lists) is tie-only: the model's jobs are values",
+        "two set-ups in one process share the module global tis.ENGINES by design (one sampler per process); not part of this check",
     ]
     ctx.assumptions += [a for a in new_assumptions if a not in ctx.assumptions]   # run() is re-entered on escalation
 
@@ -323,7 +519,7 @@ def replay(ctx, obj):
         print("no history parameters in this replay file:", r)
         return 1
     ctx.seed = r.get("ctxseed", ctx.seed)
-    one(ctx, tuple(r["params"]), False, [])
+    one(ctx, tuple(r["params"]), False, [])   # also the two-state form ("two", paramsA, paramsB)
     for f in ctx.fails:
         print("still fails:", f["signature"], f["what"])
     return 1 if ctx.fails else 0
